@@ -178,8 +178,8 @@ func runC08(c *core.Ctx) {
 		return
 	}
 	defer pool.Close()
-	exBook, _ := os.ReadFile("/repo/examples/food.yaml")
-	exLog, _ := os.ReadFile("/repo/examples/log.yaml")
+	exBook, _ := os.ReadFile(core.Repo + "/examples/food.yaml")
+	exLog, _ := os.ReadFile(core.Repo + "/examples/log.yaml")
 	n := c.N(20000, 400000)
 	core.ParallelFor(n, c.Procs, func(wk, i int) {
 		srv := pool.Servers[wk]
